@@ -7,14 +7,49 @@ package sched
 
 import (
 	"fmt"
+	"runtime"
 	"runtime/debug"
+	"unsafe"
 
 	"github.com/uhn/ggql/pkg/vsync"
 
 	"verif/mc/core"
 )
 
+const maxThreads = 4
+
+type vclock [maxThreads]int32
+
+func (a *vclock) join(b *vclock) {
+	for i := range a {
+		if b[i] > a[i] {
+			a[i] = b[i]
+		}
+	}
+}
+
+// shadow is the access history of one instrumented address within one execution (DJIT+ style: last write epoch,
+// last read clock per thread).
+type shadow struct {
+	p     unsafe.Pointer // keeps the object reachable, so its address cannot be reused within the execution
+	wT    int8
+	wClk  int32
+	wSite int32
+	rClk  [maxThreads]int32
+	rSite [maxThreads]int32
+}
+
+type mutexClock struct{ w, r vclock }
+
+// Race is one pair of conflicting accesses not ordered by happens-before (mutex release -> acquire edges).
+type Race struct {
+	PrevSite, Site     int  // indexes into build/sites.json
+	PrevThread, Thread int  // thread ids
+	PrevWrite, Write   bool // kinds of the two accesses
+}
+
 type thread struct {
+	vc    vclock
 	id    int
 	wake  chan struct{}
 	want  interface{} // mutex the thread is about to acquire (nil = none)
@@ -33,6 +68,10 @@ type Result struct {
 	Contended   int   // Lock points reached while the mutex was held by another thread
 	Preemptions int   // choices that switched away from a thread that could have continued
 	Schedule    []int // thread ids in the order they were given the CPU
+	Races       []Race // first race per (previous site, site) pair, memory-access overlay only
+	Accesses    int    // instrumented shared-memory accesses observed
+	Addresses   int    // distinct instrumented addresses touched by managed threads
+	SharedAddrs int    // ... of which touched by more than one thread
 }
 
 type Sched struct {
@@ -45,6 +84,59 @@ type Sched struct {
 	res      Result
 	FineMode bool // Unlock is a choice point too (cross-check of the Lock-only reduction)
 	MaxSteps int
+	mem      map[uintptr]*shadow
+	mclk     map[interface{}]*mutexClock
+	raceSeen map[[2]int]bool
+}
+
+// MemTrack turns on happens-before race checking of instrumented accesses (needs the memory-access overlay; without it
+// no access is ever reported and the tracking is vacuous - HasMemOverlay tells).
+var MemTrack = false
+
+var runsSinceGC = 0
+
+func (s *Sched) mc(m interface{}) *mutexClock {
+	c := s.mclk[m]
+	if c == nil {
+		c = &mutexClock{}
+		s.mclk[m] = c
+	}
+	return c
+}
+
+func (s *Sched) access(p unsafe.Pointer, site int, write bool) {
+	t := s.cur
+	if t == nil {
+		return
+	}
+	s.res.Accesses++
+	a := uintptr(p)
+	sh := s.mem[a]
+	if sh == nil {
+		sh = &shadow{p: p, wT: -1}
+		s.mem[a] = sh
+	}
+	report := func(pt int, psite int32, pw bool) {
+		k := [2]int{int(psite), site}
+		if s.raceSeen[k] {
+			return
+		}
+		s.raceSeen[k] = true
+		s.res.Races = append(s.res.Races, Race{PrevSite: int(psite), Site: site, PrevThread: pt, Thread: t.id, PrevWrite: pw, Write: write})
+	}
+	if sh.wT >= 0 && int(sh.wT) != t.id && sh.wClk > t.vc[sh.wT] {
+		report(int(sh.wT), sh.wSite, true)
+	}
+	if write {
+		for u := 0; u < maxThreads; u++ {
+			if u != t.id && sh.rClk[u] > t.vc[u] {
+				report(u, sh.rSite[u], false)
+			}
+		}
+		sh.wT, sh.wClk, sh.wSite = int8(t.id), t.vc[t.id], int32(site)
+	} else {
+		sh.rClk[t.id], sh.rSite[t.id] = t.vc[t.id], int32(site)
+	}
 }
 
 // Now returns the logical clock and advances it; harness logs use it to order events exactly.
@@ -70,11 +162,27 @@ func (s *Sched) hook(op int, m interface{}) {
 		<-t.wake              // resumed only when the mutex is free
 		t.want = nil
 		s.held[m] = t.id
+		if s.mem != nil {
+			c := s.mc(m)
+			t.vc.join(&c.w)
+			if op == vsync.OpLock {
+				t.vc.join(&c.r)
+			}
+		}
 	case vsync.OpUnlock, vsync.OpRUnlock:
 		if _, ok := s.held[m]; !ok {
 			panic("sched: unlock of a mutex that is not held")
 		}
 		delete(s.held, m)
+		if s.mem != nil {
+			c := s.mc(m)
+			if op == vsync.OpUnlock {
+				c.w = t.vc
+			} else {
+				c.r.join(&t.vc)
+			}
+			t.vc[t.id]++
+		}
 		if s.FineMode {
 			s.yield <- struct{}{}
 			<-t.wake
@@ -87,8 +195,27 @@ func (s *Sched) hook(op int, m interface{}) {
 func Run(ch *core.Chooser, fine bool, fns ...func(s *Sched)) *Result {
 	s := &Sched{ch: ch, held: map[interface{}]int{}, yield: make(chan struct{}), FineMode: fine, MaxSteps: 10000}
 	s.res.Panics = map[int]string{}
+	if len(fns) > maxThreads {
+		panic(core.EngineError{Msg: "sched: too many threads"})
+	}
+	if MemTrack {
+		s.mem = map[uintptr]*shadow{}
+		s.mclk = map[interface{}]*mutexClock{}
+		s.raceSeen = map[[2]int]bool{}
+		// no collection while threads run: an address observed in this execution is never reused in it
+		debug.SetGCPercent(-1)
+		vsync.Mem = s.access
+		defer func() {
+			vsync.Mem = nil
+			if runsSinceGC++; runsSinceGC >= 32 {
+				runsSinceGC = 0
+				runtime.GC()
+			}
+		}()
+	}
 	for i, fn := range fns {
 		t := &thread{id: i, wake: make(chan struct{})}
+		t.vc[i] = 1
 		fn := fn
 		t.fn = func() { fn(s) }
 		s.threads = append(s.threads, t)
@@ -189,5 +316,19 @@ func Run(ch *core.Chooser, fine bool, fns ...func(s *Sched)) *Result {
 		}
 	}
 	s.cur = nil
+	if s.mem != nil {
+		s.res.Addresses = len(s.mem)
+		for _, sh := range s.mem {
+			n := 0
+			for u := 0; u < maxThreads; u++ {
+				if sh.rClk[u] > 0 || int(sh.wT) == u {
+					n++
+				}
+			}
+			if n > 1 {
+				s.res.SharedAddrs++
+			}
+		}
+	}
 	return &s.res
 }
